@@ -264,7 +264,15 @@ func (c *Ctx) PaletteResizeCopiesAll() []core.Ob {
 			o.Status, o.Got = core.Violated, "copy loop guard is not `i < length`"
 			continue
 		}
-		phi, isPhi := stripConv(cmp.X).(*ssa.Phi)
+		// the counter: i (tested before the body) or i+1 (the rotated form of `for i := range n`,
+		// whose body is entered through a separate 0 < n guard)
+		cx := stripConv(cmp.X)
+		if bo, ok := cx.(*ssa.BinOp); ok && bo.Op == token.ADD {
+			if k, ok := constIntVal(bo.Y); ok && k == 1 {
+				cx = stripConv(bo.X)
+			}
+		}
+		phi, isPhi := cx.(*ssa.Phi)
 		if !isPhi || !isCounterPhi(phi) {
 			o.Status, o.Got = core.Violated, "copy loop does not count from 0 in steps of 1"
 			continue
@@ -555,6 +563,126 @@ func (c *Ctx) intCaseClasses(fn *ssa.Function, fnName string) ([]string, string)
 	return classes, ""
 }
 
+// widthFitsPalette: see PaletteConfig (2). Returns "" or what disagrees.
+func (c *Ctx) widthFitsPalette(bitsFn, cr *ssa.Function) string {
+	sizes := c.TLG().sizesOf(bitsFn)
+	probes := []int64{}
+	for v := int64(-2); v <= 40; v++ {
+		probes = append(probes, v)
+	}
+	probes = append(probes, 1000)
+	// the width: a number, or "the value of package variable X" when it is one (the direct width
+	// is computed at start-up from the registry size)
+	type width struct {
+		n   *big.Int
+		sym string
+	}
+	same := func(a, b width) bool {
+		if a.n != nil && b.n != nil {
+			return a.n.Cmp(b.n) == 0
+		}
+		return a.n == nil && b.n == nil && a.sym == b.sym
+	}
+	show := func(w width) string {
+		if w.n != nil {
+			return w.n.String()
+		}
+		return w.sym
+	}
+	evalBits := func(n int64) (width, error) {
+		ev := &skelEval{c: c, sizes: sizes}
+		var retSym string
+		ev.onInstr = func(in ssa.Instruction, get func(ssa.Value) *big.Int) {
+			if r, ok := in.(*ssa.Return); ok && len(r.Results) == 1 && get(r.Results[0]) == nil {
+				if ld, ok := stripConv(r.Results[0]).(*ssa.UnOp); ok && ld.Op == token.MUL {
+					if g, ok := ld.X.(*ssa.Global); ok {
+						retSym = "the value of " + g.String()
+					}
+				}
+			}
+		}
+		args := make([]*big.Int, len(bitsFn.Params))
+		args[len(args)-1] = bi(n)
+		v, err := ev.run(bitsFn, args)
+		if err != nil && retSym != "" {
+			return width{sym: retSym}, nil
+		}
+		return width{n: v}, err
+	}
+	// the width create(n) stores into an int field of the palette it builds, and the block that builds it
+	type built struct {
+		width *big.Int
+		many  bool
+		body  int
+	}
+	evalCreate := func(n int64) built {
+		var res built
+		res.body = -1
+		ev := &skelEval{c: c, sizes: sizes}
+		ev.onInstr = func(in ssa.Instruction, get func(ssa.Value) *big.Int) {
+			switch x := in.(type) {
+			case *ssa.Store:
+				if _, ok := x.Addr.(*ssa.FieldAddr); !ok {
+					return
+				}
+				// a plain int field (the width); state values are of a named type
+				if !types.Identical(x.Val.Type(), types.Typ[types.Int]) {
+					return
+				}
+				if v := get(x.Val); v != nil {
+					if res.width != nil && res.width.Cmp(v) != 0 {
+						res.many = true
+					}
+					res.width = v
+				}
+			case *ssa.Alloc:
+				if res.body < 0 {
+					res.body = x.Block().Index
+				}
+			case *ssa.MakeInterface:
+				if res.body < 0 {
+					res.body = x.Block().Index
+				}
+			}
+		}
+		args := make([]*big.Int, len(cr.Params))
+		args[len(args)-1] = bi(n)
+		_, _ = ev.run(cr, args)
+		return res
+	}
+	zero, large := evalCreate(0), evalCreate(1000)
+	defBits, err := evalBits(1000)
+	if err != nil {
+		return "bits(1000): " + err.Error()
+	}
+	for _, n := range probes {
+		b, err := evalBits(n)
+		if err != nil {
+			return fmt.Sprintf("%s(%d): %v", bitsFn.Name(), n, err)
+		}
+		cb := evalCreate(n)
+		switch {
+		case cb.many:
+			return fmt.Sprintf("%s(%d) stores different widths into the palette it builds", cr.Name(), n)
+		case cb.width != nil:
+			if b.n == nil || b.n.Cmp(cb.width) != 0 {
+				return fmt.Sprintf("for %d bits per entry the storage is given %s bits but the palette built for it records %s: indexes and storage disagree", n, show(b), cb.width)
+			}
+		case cb.body == zero.body && zero.width == nil:
+			if b.n == nil || b.n.Sign() != 0 {
+				return fmt.Sprintf("for %d bits per entry the single-value palette is built but the storage is given %s bits", n, show(b))
+			}
+		case cb.body == large.body && large.width == nil:
+			if !same(b, defBits) {
+				return fmt.Sprintf("for %d bits per entry the direct palette is built but the storage is given %s bits, not the direct width %s", n, show(b), show(defBits))
+			}
+		default:
+			return fmt.Sprintf("the palette %s(%d) builds records no width and is neither the one of 0 nor the one of large widths", cr.Name(), n)
+		}
+	}
+	return ""
+}
+
 // PaletteConfig implements T-PALCFG.
 func (c *Ctx) PaletteConfig() []core.Ob {
 	var obs []core.Ob
@@ -563,7 +691,7 @@ func (c *Ctx) PaletteConfig() []core.Ob {
 		{"biomes", "level.NewBiomesPaletteContainerWithData"},
 	} {
 		o := core.Ob{Rule: "T-PALCFG", Key: cfg.name + ":case-partitions", Armed: true, Status: core.OK,
-			Want: "bits(), create() and the WithData constructor of the " + cfg.name + " configuration split the bits-per-entry values into the same classes"}
+			Want: "create() and the WithData constructor of the " + cfg.name + " configuration choose the palette kind by the same classes of bits-per-entry values, and bits(n) is the width the palette built by create(n) works with"}
 		// the configuration type is whatever concrete type the exported constructor puts into the container's
 		// configuration slot; its two methods are told apart by their result type (int: the storage width)
 		ctor := c.Fn(cfg.ctor)
@@ -599,23 +727,43 @@ func (c *Ctx) PaletteConfig() []core.Ob {
 		} else if bitsFn == nil || cr == nil {
 			bad = "the configuration type of " + cfg.ctor + " (with its width and palette-construction methods) is not recognised"
 		}
-		for _, f := range []*ssa.Function{bitsFn, cr, ctor} {
+		// (1) create() and the WithData constructor choose the palette kind by the same classes of the width
+		for _, f := range []*ssa.Function{cr, ctor} {
 			if bad != "" {
 				break
 			}
 			cls, why := c.intCaseClasses(f, core.FnName(f))
+			if why != "" {
+				// the decision may live in a helper the function delegates to (statesPaletteFor(n, ..))
+				for _, g := range c.withPkgCallees(f, 1)[1:] {
+					if g == cr || g == bitsFn {
+						continue
+					}
+					if cls2, why2 := c.intCaseClasses(g, core.FnName(g)); why2 == "" {
+						cls, why = cls2, ""
+						break
+					}
+				}
+			}
 			if why != "" {
 				bad = why
 				break
 			}
 			parts = append(parts, strings.Join(cls, " | "))
 		}
+		// (2) the storage width bits(n) fits the palette create(n) builds: equal to the width that palette
+		// records (linear / hashed), 0 where the palette of n = 0 is built (single value), and the
+		// default width where the palette of a large n is built (direct). Evaluated for every probe;
+		// independent of how bits() is written (case lists, range tests, a lookup table).
+		if bad == "" && parts[0] == parts[1] {
+			bad = c.widthFitsPalette(bitsFn, cr)
+		}
 		if bad != "" {
 			o.Status, o.Got = core.Violated, bad
-		} else if parts[0] != parts[1] || parts[1] != parts[2] {
-			o.Status, o.Got = core.Violated, "bits: "+parts[0]+" ;; create: "+parts[1]+" ;; WithData: "+parts[2]
+		} else if parts[0] != parts[1] {
+			o.Status, o.Got = core.Violated, "create: "+parts[0]+" ;; WithData: "+parts[1]
 		} else {
-			o.Got = parts[0]
+			o.Got = parts[0] + "; bits(n) equals the width recorded by create(n) for every probe"
 		}
 		if bitsFn != nil {
 			o.Pos = c.P.Pos(bitsFn.Pos())
